@@ -742,7 +742,7 @@ def account(ck, cases, hist):
 
 
 def run(ck):
-    ck.build_proofs()
+    ck.build_proofs(extra_targets=["theories/Dag/DagGenProofs.vo"])
     DAG = _import_dag()
     rng = random.Random(ck.seed)
     hist = {}
